@@ -87,8 +87,11 @@ def r51(ctx):
         # multi-definition (if zero-fee {354} else {330 + feerate*weight/1000}): collect both definitions
         defs = _all_defs(fv, nm)
         txt = " | ".join(defs)
-        ok = any(wfn in d and "feerate_per_kw" in d and "1000" in d and "MIN_DUST_LIMIT_SATOSHIS" in d for d in defs) and \
-            any(d == "MIN_CHAN_DUST_LIMIT_SATOSHIS" for d in defs)
+        import re as _re
+        # MIN_DUST + (feerate * weight(..) / 1000), either factor order
+        shape = _re.compile(r"^\(MIN_DUST_LIMIT_SATOSHIS \+ \(\((?:[\w\.]*feerate_per_kw \* [\w:]*" + wfn + r"\(.*\)|[\w:]*" + wfn +
+                            r"\(.*\) \* [\w\.]*feerate_per_kw)\) / 1000\)\)$")
+        ok = any(shape.match(d) for d in defs) and any(d == "MIN_CHAN_DUST_LIMIT_SATOSHIS" for d in defs)
         ctx.ob("R5.1", ok, f"{b.name}/dust-limit-formula/{nm}", f"{nm} is computed as {txt[:300]}",
                where=f"{b.file}:{b.line}", sample=txt[:200])
     # accumulator: both loops add the element's value with checked_add
@@ -107,8 +110,11 @@ def r51(ctx):
     for bi, ln, c in R.call_blocks(fvp, lambda n: n == f"{SVT}::validate_fee"):
         a_in = render(peel(fvp.expr(c.args[2])))
         a_out = render(peel(fvp.expr(c.args[3])))
-        ok = a_in.endswith("setup.channel_value_sat") and all(x in a_out for x in
-                                                            ("to_broadcaster_value_sat", "to_countersigner_value_sat", "+"))
+        lin = atoms.linear(fvp.expr(c.args[3]))
+        parts = sorted(str(k[0]) for k in lin[0])
+        # outputs = to_broadcaster + to_countersigner + in-flight HTLC value, each with coefficient +1
+        ok = a_in.endswith("setup.channel_value_sat") and lin[1] == 0 and len(lin[0]) == 3 and all(v == 1 for v in lin[0].values()) \
+            and any(x.endswith("to_broadcaster_value_sat") for x in parts) and any(x.endswith("to_countersigner_value_sat") for x in parts)
         ctx.ob("R5.1", ok, f"{b.name}/fee-operands", f"validate_fee(inputs=`{a_in[:80]}`, outputs=`{a_out[:160]}`)",
                where=f"{b.file}:{ln}", sample={"inputs": a_in[:60], "outputs": a_out[:120]})
         e_out = fvp.expr(c.args[3])
